@@ -247,6 +247,11 @@ def build_app(case, rec_box):
                 return ','.join(sorted(app.request.forms.keys()))
             if h.get('special') == 'upload':
                 return echo_uploads(app.request)
+            if h.get('special') == 'retresp':
+                # "set status / headers / cookies, return response": the per-thread Response object itself
+                # (iterable over its .body, which response.__init__() has just set to '')
+                c3.run_prog(app, dict(h, res=dict(k='ret', o=dict(k='falsy', v='none'))), rec_box[0])
+                return app.response
             return c3.run_prog(app, h, rec_box[0])
         return f
 
@@ -523,7 +528,9 @@ def model_case(req):
     if rt['k'] == 'ok' and rt['h'].get('special'):
         h = rt['h']
         reached = not any(c3.fails(x) for x in case['before']) and not any(c3.fails(x) for x in rt['rhooks'])
-        if h['special'] == 'echo':
+        if h['special'] == 'retresp':
+            res = dict(k='ret', o=dict(k='falsy', v='estr'))       # iterating it yields nothing: an empty body
+        elif h['special'] == 'echo':
             from urllib.parse import parse_qsl
             ck = req.get('cookie') or None
             qs = req.get('qs', '')
@@ -553,7 +560,7 @@ def model_case(req):
                            r=dict(status=code, headers=[], cookies=[], body=dict(k='str', s=text)))
                 if reached:
                     raised = [(idx, inside)]
-        case = dict(case, routing=dict(rt, h=dict(muts=[], res=res)))
+        case = dict(case, routing=dict(rt, h=dict(muts=h.get('muts', []), res=res)))
     return case, raised, replaced
 
 
@@ -676,6 +683,14 @@ def special(kind, **kw):
     return d
 
 
+def retresp(muts, **kw):
+    """the handler changes the response object and returns that object itself"""
+    d = c3.ret(dict(k='falsy', v='none'), **kw)
+    d['routing'] = dict(k='ok', rhooks=[], h=dict(muts=[m for m in muts if m['m'] != 'bad'],
+                                                  res=dict(k='ret', o=dict(k='falsy', v='none')), special='retresp'))
+    return d
+
+
 BODY_CLASSES = sorted(BODY_OUTCOME)
 
 
@@ -778,6 +793,10 @@ def g_request(rng, rid):
     req = dict(id=rid, qs=rng.choice(['', '', 'a=1', 'q=<x>&y=%22', 'a=2&b=']), cookie=rng.choice(['', '', 'v1', 'zz']),
                xcustom=rng.choice(['', 'c%d' % rid]), remote=rng.choice(['', '10.0.0.%d' % (rid % 250)]),
                xhr=rng.random() < 0.3)
+    if rng.random() < 0.08:
+        req.update({'class': 'retresp', 'case': retresp(c3.g_muts(rng, c3.Ctx(rng, False)),
+                                                        method=rng.choice(['GET', 'POST', 'HEAD']), json=rng.random() < 0.3)})
+        return req
     if rng.random() < 0.07:
         # no PATH_INFO key at all: _handle fails before request.__init__, the last-resort page answers
         req.update({'class': 'nopath', 'case': plain(dict(k='falsy', v='none'), method=rng.choice(['GET', 'HEAD', 'POST']),
@@ -974,6 +993,21 @@ def corpus():
                            reqs=[_req(0, dict(cookie, method=prev_m)), nopath(1, m, json=True), _req(2, plain(hello))]))
     cs.append(dict(kind='history', peek=False, eh=[], reqs=[nopath(0, 'GET'), nopath(1, 'HEAD'), _req(2, cookie), dict(bad, id=3),
                                                             nopath(4, 'GET'), dict(over[0], id=5), nopath(6, 'HEAD')]))
+    # a handler that returns the per-thread response object itself, after requests whose outcome went through
+    # HTTPResponse.apply (404, 405, crash, raised / returned response with a body, 400 for a bad path, body error):
+    # its body is empty, whatever those left in response.body (seeded change: a reset() that forgets .body)
+    rr_ = dict(muts=[], res=dict(k='raise_http', err=False, r=dict(status=201, headers=[], cookies=[],
+                                                                   body=dict(k='str', s='earlier body: alice'))))
+    earlier = [_req(0, dict(plain(hello), routing=dict(k='404', partial=None))),
+               _req(0, dict(plain(hello), routing=dict(k='405'), method='PATCH')),
+               _req(0, dict(plain(hello), routing=dict(k='ok', rhooks=[], h=dict(muts=[], res=dict(k='raise_exc'))))),
+               _req(0, dict(plain(hello), routing=dict(k='ok', rhooks=[], h=rr_))), _req(0, st_case(520, 'resp')),
+               dict(bad, id=0), dict(over[0], id=0), _req(0, cookie)]
+    for k, e in enumerate(earlier):
+        m = [dict(m='set', n='X-A', v='v'), dict(m='status', v=202)] if k % 2 else []
+        r1 = dict(id=1, qs='', cookie='', **{'class': 'retresp', 'case': retresp(m, method='HEAD' if k % 3 == 2 else 'GET')})
+        cs.append(dict(kind='history', peek=bool(k % 2), eh=[], reqs=[e, r1, dict(r1, id=2)]))
+    cs.append(dict(kind='history', peek=False, eh=[], reqs=[dict(r1, id=0)]))
     # debug=True: the error pages show the exception.  Body errors of the same mapped class raised from inside an
     # except block (their __context__ is this request's exception, e.g. the multipart error quoting its part headers)
     # and from outside one (a raise there leaves __context__ as it is), in both orders: every page is the fresh one
@@ -1078,7 +1112,7 @@ def shrink(case):
     if case['eh']:
         yield dict(case, eh=[])
     for i, r in enumerate(reqs):
-        if r['class'] not in ('badpath', 'body', 'echo', 'routerboom', 'nopath'):
+        if r['class'] not in ('badpath', 'body', 'echo', 'routerboom', 'nopath', 'retresp'):
             for sc in c3.shrink(r['case']):
                 yield dict(case, reqs=reqs[:i] + [dict(r, case=sc)] + reqs[i + 1:])
 
